@@ -619,6 +619,7 @@ class MQTTBaseProtocol(Protocol):
         # Changes state and execute deferreds
         log.debug("<== {packet:7} (code={code} session={flags})", packet="CONNACK", code=response.resultCode, flags=response.session)
         request = self.connReq
+        self.connReq = None     # now: the callbacks fired below may connect() again
         request.alarm.cancel()
         if response.resultCode == 0:
             self.state = self.CONNECTED
@@ -635,7 +636,6 @@ class MQTTBaseProtocol(Protocol):
             else:
                 msg = "Connection Refused, reserved return code"
             request.deferred.errback(MQTTStateError(response.resultCode, msg))
-        self.connReq = None     # to be garbage-collected
       
     # ------------------------------------------------------------------------
     
